@@ -43,12 +43,14 @@ SessionObject::SessionObject(SessionObjectStore* inParent, CK_SLOT_ID inSlotID, 
 	objectMutex = MutexFactory::i()->getMutex();
 	valid = (objectMutex != NULL);
 	parent = inParent;
+	inTransaction = false;
 }
 
 // Destructor
 SessionObject::~SessionObject()
 {
 	discardAttributes();
+	discardBackup();
 
 	MutexFactory::i()->recycleMutex(objectMutex);
 }
@@ -297,19 +299,84 @@ void SessionObject::discardAttributes()
 	}
 }
 
-// These functions are just stubs for session objects
+// Discard the transaction snapshot
+void SessionObject::discardBackup()
+{
+	for (std::map<CK_ATTRIBUTE_TYPE, OSAttribute*>::iterator i = transactionBackup.begin(); i != transactionBackup.end(); i++)
+	{
+		delete i->second;
+	}
+
+	transactionBackup.clear();
+}
+
+// Start an attribute transaction: remember the current attribute values
 bool SessionObject::startTransaction(Access)
 {
+	MutexLocker lock(objectMutex);
+
+	if (inTransaction)
+	{
+		return false;
+	}
+
+	for (std::map<CK_ATTRIBUTE_TYPE, OSAttribute*>::iterator i = attributes.begin(); i != attributes.end(); i++)
+	{
+		if (i->second != NULL)
+		{
+			transactionBackup[i->first] = new OSAttribute(*i->second);
+		}
+	}
+
+	inTransaction = true;
+
 	return true;
 }
 
+// Commit an attribute transaction
 bool SessionObject::commitTransaction()
 {
+	MutexLocker lock(objectMutex);
+
+	if (!inTransaction)
+	{
+		return false;
+	}
+
+	discardBackup();
+	inTransaction = false;
+
 	return true;
 }
 
+// Abort an attribute transaction; restores the attribute values the object had
+// when the transaction was started
 bool SessionObject::abortTransaction()
 {
+	MutexLocker lock(objectMutex);
+
+	if (!inTransaction)
+	{
+		return false;
+	}
+
+	if (valid)
+	{
+		for (std::map<CK_ATTRIBUTE_TYPE, OSAttribute*>::iterator i = attributes.begin(); i != attributes.end(); i++)
+		{
+			delete i->second;
+		}
+
+		attributes = transactionBackup;
+		transactionBackup.clear();
+	}
+	else
+	{
+		discardBackup();
+	}
+
+	inTransaction = false;
+
 	return true;
 }
 
